@@ -1,3 +1,4 @@
 import IbexModel.Dbl
 import IbexModel.Itv
 import IbexModel.Box
+import IbexModel.ItvG
